@@ -505,13 +505,15 @@ func tryReadTrailer(t *protocol.Trailer, r network.Reader, n int) error {
 }
 
 func parseTrailer(t *protocol.Trailer, buf []byte) (int, error) {
-	// Skip any 0 length chunk.
+	// Skip any 0 length chunk (but not a trailer field whose name starts with '0').
 	if buf[0] == '0' {
 		skip := len(bytestr.StrCRLF) + 1
 		if len(buf) < skip {
-			return 0, io.EOF
+			return 0, errs.ErrNeedMore
 		}
-		buf = buf[skip:]
+		if bytes.Equal(buf[1:skip], bytestr.StrCRLF) {
+			buf = buf[skip:]
+		}
 	}
 
 	// Trailer values are stored as they are scanned and a value is stored only
